@@ -54,13 +54,13 @@ Definition host_kinds : list etype :=
   [DomainToASCII; DomainInvalidCodePoint; HostInvalidCodePoint; IPv4EmptyPart; IPv4TooManyParts; IPv4NonNumericPart;
    IPv4NonDecimalPart; IPv4OutOfRangePart; IPv6Unclosed; InvalidURLUnit] ++ ipv6_kinds.
 
-(* the kinds that come out of what the clause calls: the host parser in the three host states; PortOutOfRange in the port
-   state, which the Go clause raises through p.handleWrappedError (not a handleError* name, so the generated table does not
-   list it - see the report at the end of this file). The percent-encoding helpers of the model raise nothing. *)
+(* the kinds that come out of what the clause calls: the host parser in the three host states. (PortOutOfRange is raised in
+   the Go port clause itself through p.handleWrappedError; the translator reads every handle*Error* call, so the generated
+   table lists it - the first version of the translator matched the prefix "handleError" only and missed it, which this
+   development found: see the note at the end of this file.) The percent-encoding helpers of the model raise nothing. *)
 Definition called_errors (s : state) : list etype :=
   match s with
   | HostSt | HostnameSt | FileHost => host_kinds
-  | PortSt => [PortOutOfRange]
   | _ => []
   end.
 
@@ -116,12 +116,6 @@ Qed.
 (* ------------------------------------------------------------------------------------------ *)
 
 (* the kinds the IPv6 parser can return *)
-Ltac v6_break H :=
-  match type of H with
-  | context [if ?b then _ else _] => destruct b eqn:?
-  | context [match ?x with _ => _ end] => destruct x eqn:?
-  end.
-
 Lemma v4tail_kinds : forall l seen piece pi addr t,
   v4tail l seen piece pi addr = inr t -> inb t ipv6_kinds = true.
 Proof.
@@ -239,7 +233,7 @@ Section HostKinds.
     okv S v0 (u_verrs u) -> okv S v0 (u_verrs (fst (endsInANumber c u input))).
   Proof.
     intros Hu. unfold endsInANumber.
-    match goal with |- context [last_opt ?p] => destruct (last_opt p) as [[|x l]|] end; try exact Hu.
+    destruct (last_opt _) as [[|x l]|]; try exact Hu.
     destruct (all_in isDigit (x :: l)); [exact Hu|].
     pose proof (parseIPv4Number_okv c u (x :: l) Hu) as H.
     destruct (parseIPv4Number c u (x :: l)) as [u' [n ve|range]]; exact H.
@@ -561,3 +555,225 @@ Theorem step_errors_allowed : forall idna_raw c inp base ov m,
   errors_of (step idna_raw c inp base ov m) (m_url m) ⊆ direct_errors (m_state m) ++ called_errors (m_state m).
 Proof. intros. apply A_errors_of. apply step_A. Qed.
 Print Assumptions step_errors_allowed.
+
+(* the old validation errors are a prefix of the record a step leaves behind: the suffix read by errors_of is what the
+   step appended *)
+Definition outcome_url (o : outcome) : option url :=
+  match o with
+  | Cont m' => Some (m_url m')
+  | RetUrl u => Some u
+  | RetErr u _ => Some u
+  | RetNilNil u => Some u
+  | Panic => None
+  end.
+
+Theorem step_verrs_extend : forall idna_raw c inp base ov m u',
+  outcome_url (step idna_raw c inp base ov m) = Some u' ->
+  u_verrs u' = u_verrs (m_url m) ++ new_verrs (m_url m) u'.
+Proof.
+  intros idna_raw c inp base ov m u' H.
+  pose proof (step_A idna_raw c inp base ov m) as HA.
+  assert (Hok : okv (allowed (m_state m)) (u_verrs (m_url m)) (u_verrs u')).
+  { destruct (step idna_raw c inp base ov m) as [m'|u|u e|u|]; cbn [outcome_url A] in H, HA;
+      try discriminate; injection H as <-; try exact HA. destruct HA as [HA _]. exact HA. }
+  destruct Hok as [l [E _]]. unfold new_verrs. rewrite E.
+  rewrite skipn_app, skipn_all, Nat.sub_diag. reflexivity.
+Qed.
+Print Assumptions step_verrs_extend.
+
+(* ------------------------------------------------------------------------------------------ *)
+(* 5. Every listed kind is raised by a concrete step (the tables are exact)                    *)
+(* ------------------------------------------------------------------------------------------ *)
+
+Definition raises (s : state) (t : etype) : Prop :=
+  exists idna_raw c inp base ov m,
+    m_state m = s /\ In t (errors_of (step idna_raw c inp base ov m) (m_url m)).
+
+(* the (state, kind) pairs of the iterations of `run` *)
+Fixpoint etrace (idna_raw : str -> str * bool) (c : cfg) (inp : list rune) (base : option url) (ov : option state)
+    (fuel : nat) (m : mstate) : list (state * etype) :=
+  match fuel with
+  | O => []
+  | Datatypes.S f =>
+      let o := step idna_raw c inp base ov m in
+      map (fun t => (m_state m, t)) (errors_of o (m_url m)) ++
+      match o with
+      | Cont m' => if m_eof m' then [] else etrace idna_raw c inp base ov f m'
+      | _ => []
+      end
+  end.
+
+Lemma etrace_sound idna_raw c inp base ov : forall fuel m s t,
+  In (s, t) (etrace idna_raw c inp base ov fuel m) -> raises s t.
+Proof.
+  induction fuel as [|f IH]; intros m s t H; [destruct H|].
+  cbn [etrace] in H. apply in_app_or in H. destruct H as [H|H].
+  - apply in_map_iff in H. destruct H as [t' [E Ht]]. injection E as <- <-.
+    exists idna_raw, c, inp, base, ov, m. split; [reflexivity | exact Ht].
+  - destruct (step idna_raw c inp base ov m) as [m'| | | |]; try destruct H.
+    destruct (m_eof m'); [destruct H|]. eapply IH; exact H.
+Qed.
+
+From Verif Require Import Gen.Options Model.Api.
+From Coq Require Import String.
+Local Open Scope string_scope.
+
+Definition se_idna (s : str) : str * bool := (s, false).
+Definition se_cfg : cfg := opt_WithReportValidationErrors.
+
+(* one concrete run: input, base (as a string to parse), state override, start state, start record *)
+Record se_run := { sr_inp : string; sr_base : option string; sr_ov : option state; sr_st : state; sr_url : url }.
+
+Definition se_base (b : option string) : option url :=
+  match b with
+  | None => None
+  | Some s => match Parse se_idna default_cfg (bs s) with PUrl u => Some u | _ => None end
+  end.
+
+Definition se_trace (r : se_run) : list (state * etype) :=
+  let inp := decode (bs (sr_inp r)) in
+  etrace se_idna se_cfg inp (se_base (sr_base r)) (sr_ov r) (fuel_of (List.length inp))
+    (mk (sr_st r) (-1)%Z false [] false false false (sr_url r)).
+
+Definition u_none : url := empty_url [].
+Definition u_http : url := set_scheme (empty_url []) (bs "http").
+Definition u_foo : url := set_scheme (empty_url []) (bs "foo").
+Definition plain (i : string) (b : option string) : se_run :=
+  {| sr_inp := i; sr_base := b; sr_ov := None; sr_st := SchemeStart; sr_url := u_none |}.
+Definition from (s : state) (u : url) (i : string) : se_run :=
+  {| sr_inp := i; sr_base := None; sr_ov := None; sr_st := s; sr_url := u |}.
+Definition over (s : state) (u : url) (i : string) : se_run :=
+  {| sr_inp := i; sr_base := None; sr_ov := Some s; sr_st := s; sr_url := u |}.
+
+(* runs for the kinds the clauses raise directly *)
+Definition se_direct_runs : list se_run :=
+  [ over SchemeStart u_none "1";
+    over SchemeStart u_none "a/";
+    plain "file:a" None;
+    plain "x" None;
+    plain "http:x" (Some "http://h/a");
+    plain "\x" (Some "http://h/a");
+    plain "/\x" (Some "http://h/a");
+    plain "http:x" None;
+    plain "http:///x" None;
+    plain "http://u@h/" None;
+    plain "http://" None;
+    from HostnameSt u_http "/";
+    plain "http://h:8a/" None;
+    over PortSt u_http "";
+    plain "file:c:/x" (Some "file:///a/b");
+    plain "file:\x" None;
+    plain "file:/\x" None;
+    plain "file://c:/x" None;
+    plain "http://h\x" None;
+    plain "http://h/a\b" None;
+    plain "http://h/a b" None;
+    plain "foo:a b" None;
+    plain "foo:a?b c" None;
+    plain "foo:a#b c" None;
+    plain "http://h:99999/" None ].
+
+(* host inputs for the kinds of the host parser: (record, input) *)
+Definition se_host_inputs : list (url * string) :=
+  [ (u_http, "%ff/"); (u_http, "a^b/"); (u_foo, "a^b/"); (u_http, "1.2./"); (u_http, "1.2.3.4.5/"); (u_http, "a.1/");
+    (u_http, "0x1/"); (u_http, "1.2.3.256/"); (u_http, "[::1/"); (u_foo, "a""b/");
+    (u_http, "[:1]/"); (u_http, "[1:2:3:4:5:6:7:8:9]/"); (u_http, "[1::2::3]/"); (u_http, "[1:g]/"); (u_http, "[1:2]/");
+    (u_http, "[1:2:3:4:5:6:7:1.2.3.4]/"); (u_http, "[::1.a]/"); (u_http, "[::256.1.1.1]/"); (u_http, "[::1.2]/") ].
+
+Definition se_called_runs : list se_run :=
+  plain "http://h:99999/" None ::
+  flat_map (fun s => map (fun ui => from s (fst ui) (snd ui)) se_host_inputs) [HostSt; HostnameSt; FileHost].
+
+Definition se_seen (runs : list se_run) : list (state * etype) := flat_map se_trace runs.
+
+Definition pair_eqb (a b : state * etype) : bool := state_eqb (fst a) (fst b) && etype_eqb (snd a) (snd b).
+Definition all_states : list state :=
+  [SchemeStart; Scheme; NoScheme; OpaquePath; SpecialRelativeOrAuthority; SpecialAuthoritySlashes;
+   SpecialAuthorityIgnoreSlashes; PathOrAuthority; Authority; HostSt; HostnameSt; File; FileHost; FileSlash;
+   PortSt; PathSt; PathStart; QuerySt; FragmentSt; Relative; RelativeSlash].
+Definition missing (tbl : state -> list etype) (runs : list se_run) : list (state * etype) :=
+  let seen := se_seen runs in
+  flat_map (fun s => flat_map (fun t => if existsb (pair_eqb (s, t)) seen then [] else [(s, t)]) (tbl s)) all_states.
+
+
+Lemma all_states_complete : forall s : state, In s all_states.
+Proof. intros s. destruct s; vm_compute; tauto. Qed.
+
+Lemma flat_map_nil {X Y} (f : X -> list Y) l : flat_map f l = [] -> forall x, In x l -> f x = [].
+Proof.
+  induction l as [|a l IH]; intros H x Hx; [destruct Hx|].
+  cbn [flat_map] in H. apply app_eq_nil in H. destruct H as [Ha Hl].
+  destruct Hx as [<-|Hx]; [exact Ha | apply IH; assumption].
+Qed.
+
+Lemma missing_nil_raises tbl runs : missing tbl runs = [] -> forall s t, In t (tbl s) -> raises s t.
+Proof.
+  intros H s t Ht. unfold missing in H. cbv zeta in H.
+  pose proof (flat_map_nil _ _ H s (all_states_complete s)) as H1. cbv beta in H1.
+  pose proof (flat_map_nil _ _ H1 t Ht) as H2. cbv beta in H2.
+  destruct (existsb (pair_eqb (s, t)) (se_seen runs)) eqn:E; [|discriminate].
+  apply existsb_exists in E. destruct E as [[s' t'] [Hseen Heq]].
+  unfold pair_eqb in Heq. cbn [fst snd] in Heq. apply andb_true_iff in Heq. destruct Heq as [Hs Ht'].
+  apply etype_eqb_eq in Ht'. subst t'.
+  assert (s = s') by (destruct s, s'; try reflexivity; discriminate). subst s'.
+  unfold se_seen in Hseen. apply in_flat_map in Hseen. destruct Hseen as [r [_ Hr]].
+  unfold se_trace in Hr. eapply etrace_sound. exact Hr.
+Qed.
+
+Lemma se_direct_covers : missing direct_errors se_direct_runs = [].
+Proof. vm_compute. reflexivity. Qed.
+Lemma se_called_covers : missing called_errors se_called_runs = [].
+Proof. vm_compute. reflexivity. Qed.
+
+(* each kind the Go clause of state s passes to handleError* is raised by a concrete step of the model in state s: a
+   handleError call added to a clause of /repo/url/parser.go that the model does not have breaks this obligation *)
+Theorem direct_errors_realised : forall s t, In t (direct_errors s) -> raises s t.
+Proof. exact (missing_nil_raises _ _ se_direct_covers). Qed.
+Print Assumptions direct_errors_realised.
+
+(* called_errors is minimal as well *)
+Theorem called_errors_realised : forall s t, In t (called_errors s) -> raises s t.
+Proof. exact (missing_nil_raises _ _ se_called_covers). Qed.
+Print Assumptions called_errors_realised.
+
+(* both directions: the kinds a step can raise in state s are exactly direct_errors s ++ called_errors s *)
+Corollary allowed_exact : forall s t, In t (direct_errors s ++ called_errors s) <-> raises s t.
+Proof.
+  intros s t. split.
+  - intros H. apply in_app_or in H. destruct H as [H|H]; [apply direct_errors_realised | apply called_errors_realised]; exact H.
+  - intros (idna_raw & c & inp & base & ov & m & <- & H). eapply step_errors_allowed. exact H.
+Qed.
+Print Assumptions allowed_exact.
+
+(* the two tables do not overlap, and the generated table has exactly one entry per state *)
+Lemma direct_called_disjoint : forall s t, In t (direct_errors s) -> ~ In t (called_errors s).
+Proof.
+  assert (H : forallb (fun s => forallb (fun t => negb (inb t (called_errors s))) (direct_errors s)) all_states = true)
+    by (vm_compute; reflexivity).
+  intros s t Hd Hc. rewrite forallb_forall in H. specialize (H s (all_states_complete s)).
+  rewrite forallb_forall in H. specialize (H t Hd). rewrite (In_inb _ _ Hc) in H. discriminate.
+Qed.
+
+Lemma go_state_errors_one_clause_per_state :
+  forallb (fun s => Nat.eqb (List.length (filter (state_eqb s) (map fst go_state_errors))) 1) all_states = true.
+Proof. vm_compute. reflexivity. Qed.
+
+(* NOTE. The first version of the translator (harness/cmd/gentrans) collected calls whose method name starts with
+   "handleError" and so missed p.handleWrappedError(url, errors.PortOutOfRange, true, err) in the Go port clause; the exactness
+   theorems of this file exposed the gap (PortOutOfRange was raised by the model's port clause but absent from the generated
+   table). The translator now reads every handle*Error* call and the table lists the kind as a direct one: *)
+Theorem PortOutOfRange_is_direct : In PortOutOfRange (direct_errors PortSt) /\ raises PortSt PortOutOfRange.
+Proof.
+  split.
+  - vm_compute. tauto.
+  - apply direct_errors_realised. vm_compute. tauto.
+Qed.
+Print Assumptions PortOutOfRange_is_direct.
+
+(* a concrete step for the main theorem: "http://h/a b" in the path state at the space raises InvalidURLUnit, and nothing else *)
+Example step_errors_allowed_example :
+  let inp := decode (bs "http://h/a b") in
+  let m := mk PathSt 9%Z false (bs "a") false false false (set_path (set_host u_http (Some (bs "h"))) [] false) in
+  errors_of (step se_idna se_cfg inp None None m) (m_url m) = [InvalidURLUnit] /\
+  In InvalidURLUnit (direct_errors (m_state m) ++ called_errors (m_state m)).
+Proof. vm_compute. split; [reflexivity | tauto]. Qed.
